@@ -94,7 +94,7 @@ pub open spec fn decode_post(p: Seq<u8>, limit: u32, r: Result<Option<BinaryRequ
         FF::TooLarge(h) => {
             &&& r is Ok
             &&& r->Ok_0 is Some
-            &&& req_view(r->Ok_0->Some_0) =~~= too_large_req(h)
+            &&& same_req(req_view(r->Ok_0->Some_0), too_large_req(h))
             &&& st_none(c)
             &&& buf =~= p.subrange(24, p.len() as int)
         },
@@ -110,6 +110,8 @@ pub open spec fn decode_post(p: Seq<u8>, limit: u32, r: Result<Option<BinaryRequ
         },
     }
 }
+
+//@include lemmas/framing.rs
 
 impl MemcacheBinaryCodec {
     const HEADER_LEN: usize = 24;
@@ -221,7 +223,7 @@ impl MemcacheBinaryCodec {
 
 //@fn protocol/binary_codec.rs | impl MemcacheBinaryCodec | parse_item_too_large | ret=r | safety=C10
     ensures
-        r is Ok && r->Ok_0 is Some && req_view(r->Ok_0->Some_0) == too_large_req(self.header), // @ob C13 parse_item_too_large.header_only
+        r is Ok && r->Ok_0 is Some && same_req(req_view(r->Ok_0->Some_0), too_large_req(self.header)), // @ob C13 parse_item_too_large.header_only
         final(_src)@ == old(_src)@, // @ob C13 parse_item_too_large.buffer_untouched
 //@endfn
 
